@@ -161,7 +161,10 @@ func PropagateLookaheads(m *Model) error {
 	}
 
 	if s.Err() == nil {
-		checkOrDie(m, "after propagating lookaheads")
+		// Reachable from a grammar: a lookahead flag propagated into an input nonterminal.
+		if err := Check(m); err != nil {
+			return err
+		}
 	}
 	return s.Err()
 }
